@@ -6,9 +6,53 @@ HERE = os.path.dirname(os.path.abspath(__file__))
 BASE_NOTE = ("Trusted: Coq 8.16.1 kernel + vm_compute; no axioms (Print Assumptions parsed each run); "
              "extraction (ExtrOcamlBasic, ExtrOcamlString) cross-checked in-Coq; Python correspondence harness "
              "driving the real xdist classes; see DESIGN.md section 7.")
+TECH = 'Coq proof over a hand-written Gallina model + step-by-step model/implementation correspondence (differential) check; monitors on the real classes search for a failing input'
+SYS = ("Whole sessions are simulated from the REAL DSession/scheduler/WorkerController/WorkerInteractor/TestQueue classes and compared step by step with "
+       "Model/System.v on online-generated schedules (crashes included); property monitors on the implementation give the concrete failing schedule. ")
 CHECKS = {
- "C13": dict(text="Theorems over the whole option record (Z-valued, arbitrary strings) for each documented rule, about a hand-written Gallina model of plugin.pytest_cmdline_main/_is_distribution_mode/pytest_configure, parse_tx_spec_config, setup_config, looponfail main; tied to the code by differential runs of the real _prepareconfig + hook implementations on generated option combinations (incl. addopts, env var).",
-             design="5/C13", technique="Coq proof over a Gallina model + model/implementation correspondence (differential) check"),
+ "C01": dict(text=SYS + "Proved (all states): every scheduler operation conserves the test indices and sends exactly what it books (load, worksteal, loadscope family); "
+             "the worker runs exactly the assigned, not-withdrawn entries in order (C05). The system-level 'exactly once' composition is a monitor + design argument, not yet one Coq theorem: partial.",
+             design="5/C01", technique=TECH),
+ "C02": dict(text=SYS + "Proved (all states): each scheduling decision leaves the node with >=2 tests, a shutdown, an owed steal answer or an empty pool; tests_finished => shutdown triggered; "
+             "a worker with a successor can always step. Composition into 'no reachable stuck state' is searched by the stuck-state monitor: partial.", design="5/C02", technique=TECH),
+ "C03": dict(text=SYS + "Proved (all states/events): one death notice yields at most one crash report, no other event yields one; the crash item is the head of the dead node's book / first "
+             "undone test, the rest returns to the pool once, finished units are not re-queued.", design="5/C03", technique=TECH),
+ "C04": dict(text=SYS + "Proved at SYSTEM level for every configuration and schedule (crashes, replacements): produced(n) = forwarded(n) ++ in controller queue ++ on the wire (FIFO, once, tagged). "
+             "Content fidelity (pytest's report serialisation), tallies and exit status are compared in real -n runs against the in-process run.", design="5/C04", technique=TECH + "; real pytest runs for the glue"),
+ "C05": dict(text="Theorems for every command stream and every interleaving of receiver-thread lock sections with the main thread (Model/Worker.v): run order = assigned not-withdrawn prefix, "
+             "announced next item = next test run, None only last, nothing withdrawn was started/announced, completeness at the marker, exact has-items flag. Tied to the real TestQueue/WorkerInteractor "
+             "under a cooperative scheduler at lock-section granularity.", design="5/C05", technique=TECH),
+ "C06": dict(text=SYS + "Proved over arbitrary strings: the three key functions on well-formed ids (and refutations for ids with '::' in parameters / ']' in group names: known findings); units are built in "
+             "collection order, sent whole in one command to one node, re-queued whole after a crash.", design="5/C06", technique=TECH),
+ "C07": dict(text="Worker side proved for all interleavings (all-or-nothing, exact reply, order kept, nothing started is withdrawn); controller side proved for all scheduler states (one request outstanding, "
+             "tail only, >=2 left, reply processing, dead victim cancels). " + SYS, design="5/C07", technique=TECH),
+ "C08": dict(text=SYS + "Proved (all states): initial node gets run-all+shutdown and is booked everything; crash keeps the remainder other than the crashed test and blocks tests_finished; an equal-spec, "
+             "equal-collection replacement inherits exactly the remainder; a disagreeing one inherits nothing.", design="5/C08", technique=TECH),
+ "C09": dict(text=SYS + "Proved (all states/collections): diff None iff equal; initial disagreement => no command, one failed collect report per disagreeing worker; disagreeing replacement is never "
+             "registered, gets no tests, is shut down; invariant over every reachable scheduler state: whoever is sent positions registered exactly the reference collection.", design="5/C09", technique=TECH),
+ "C10": dict(text=SYS + "Proved for EVERY event sequence and scheduler state: replacements started <= max(0, budget); budget <= 0 disables replacement; one death spawns at most one replacement. "
+             "Known finding: no budget at all when neither -n nor the option is given.", design="5/C10", technique=TECH),
+ "C11": dict(text=SYS + "Proved (every event sequence): the stop reason is sticky, triggers shutdown in the same iteration, is set exactly by the maxfail rule or a worker's stop request; late ready "
+             "workers are shut down, late collections ignored, flagged nodes get no work. The simulator runs the real pytest_runtestloop.", design="5/C11", technique=TECH),
+ "C12": dict(text=SYS + "Proved (every event sequence): replacement ids are the consecutive next numbers of the group counter: distinct, never reused. Environment variables, fixtures and basetemp are "
+             "checked in real -n runs with crashing tests (no model can contain the OS): partial for that half.", design="5/C12", technique=TECH + "; real pytest runs for env/fixtures/tmp dirs"),
+ "C13": dict(text="Theorems over the whole option record (Z-valued, arbitrary strings) for each documented rule, about a Gallina model of plugin.pytest_cmdline_main/_is_distribution_mode/pytest_configure, "
+             "parse_tx_spec_config, setup_config, looponfail main; tied to the code by differential runs of the real _prepareconfig + hook implementations on generated option combinations (incl. addopts, env var).",
+             design="5/C13", technique=TECH),
+ "C14": dict(text="Theorems for every importability/constructor oracle: location kept, string text kept, instance arrives as same class or generic warning carrying class name and text, category kept when "
+             "rebuildable; refutation for the bare function (hence the fallback, fix 9a94612). Tied to the real serialize/unserialize functions and the real process_from_remote on generated warning kinds.",
+             design="5/C14", technique=TECH),
+ "C15": dict(text=SYS + "Proved (all states): mark_test_pending puts the index at the FRONT of the pool and adds exactly one index; monitors check hook-before-publication and dispatch-first on the implementation.",
+             design="5/C15", technique=TECH),
+ "C16": dict(text=SYS + "Proved for EVERY event sequence: at most one shutdown command per worker, never a second; every scheduler operation except the initial schedule sends no work to a flagged node "
+             "(the initial schedule under 'no node flagged yet'); steal requests name only booked tests; indices stay valid.", design="5/C16", technique=TECH),
+ "C17": dict(text=SYS + "Deaths are injected at every lifecycle point; any controller exception other than the documented 'no active workers' exit, any stuck state and any budget violation is reported with its schedule. "
+             "Proofs: the restart budget and crash-report theorems (C10, C03) hold for every event sequence incl. events of unknown nodes; a general 'never raises' theorem is not proved: partial.", design="5/C17", technique=TECH),
+ "C18": dict(text="Model of StatRecorder.check (visit filters, cache bookkeeping, duplicate/nested roots) and of the failure memory, compared with the real classes on a real temp directory with explicit mtimes; "
+             "an independent set-difference oracle checks 'changed iff the watched set changed' on every poll. Proved so far: the failure-memory theorems; the watcher's spec theorem is in preparation: partial.",
+             design="5/C18", technique=TECH),
+ "C19": dict(text="Models of make_reltoroot (lexical paths, '::' selectors, exists oracle), fnmatch matching and HostRSync.filter, and the spec decisions; compared with the real functions on a real temp tree and "
+             "generated patterns. Proved: local popen never synchronises, non-existing args unchanged, outside roots rejected, rewriting formula; glob theorems in preparation: partial.", design="5/C19", technique=TECH),
 }
 NOT_YET = {}
 def main():
